@@ -99,6 +99,18 @@ def run_config(case, entry: str, override=None, hash_seed=None):
                 transitive = None
             else:
                 targets = [tr.path(relpath(d)) for d in case["defs"] if idkey(d) in {idkey(t) for t in case["targets"]}]
+                for n_, t in enumerate(case.get("dup", ())):
+                    # the same file a second time under another spelling (through "..", or through a symbolic link to
+                    # its directory); placed first or last
+                    rp = relpath(t)
+                    head, tail = rp.rsplit("/", 1)
+                    variant = (idnum(t) + len(targets)) % 3
+                    if variant == 2:
+                        os.symlink(tr.path(head), tr.path("d1/alias"))
+                        alt = os.path.join(tr.path("d1/alias"), tail)
+                    else:
+                        alt = os.path.join(tr.path(head), "..", os.path.basename(head), tail)
+                    targets = [alt] + targets if variant == 0 else targets + [alt]
                 direct, transitive = pydsdl.read_files(targets, [tr.path("d1/a")], lookups, print_output_handler=ph,
                                                        allow_unregulated_fixed_port_id=True)
         except BaseException as ex:
@@ -223,7 +235,8 @@ def compare(exp, got, entry, targets):
 
 def _case(st):
     c = st["case"]
-    return {"defs": sorted(c["defs"], key=lambda d: idkey(d)), "targets": list(c.get("targets", ())), "ids": c["ids"]}
+    return {"defs": sorted(c["defs"], key=lambda d: idkey(d)), "targets": list(c.get("targets", ())), "ids": c["ids"],
+            "dup": list(c.get("dup", ()))}
 
 @core.safe
 def worker(arg):
@@ -328,10 +341,12 @@ def run_c17(ctx):
         b["diff"] = keep
         return True
     if ctx.tier == "quick":
+        run_cfg(ctx, "Reader_files2_dups.cfg", "files", sample_mod=4, focus=focus)
         run_cfg(ctx, "Reader_ns2_bodies.cfg", "namespace", sample_mod=2, focus=focus)
         run_cfg(ctx, "Reader_ns3_c17.cfg", "namespace", sample_mod=12, focus=focus)
     else:
         run_cfg(ctx, "Reader_ns2_bodies.cfg", "namespace", focus=focus)
         run_cfg(ctx, "Reader_files2_bodies.cfg", "files", focus=focus)
+        run_cfg(ctx, "Reader_files2_dups.cfg", "files", focus=focus)
         run_cfg(ctx, "Reader_ns3_bodies_lean.cfg", "namespace", sample_mod=6, focus=focus)
     ctx.exhaustive = False
